@@ -71,6 +71,29 @@ def nest_eq(a, b):
         la == lb and eq(sa, sb) for (la, sa), (lb, sb) in zip(a, b))
 
 
+def nest_refines(want, got, keep=None):
+    """`got` equals `want` up to merging adjacent factors of `want` (e.g.
+    (a*b, c) for (a, b, c)); the factor labelled `keep` must stay on its
+    own.  Compound factors are compared by size."""
+    want, got = list(nest_clean(want)), list(nest_clean(got))
+    i = 0
+    for l, sz in got:
+        if i >= len(want):
+            return False
+        acc = want[i][1]
+        labels = [want[i][0]]
+        i += 1
+        while not eq(acc, sz) and i < len(want):
+            acc = acc * want[i][1]
+            labels.append(want[i][0])
+            i += 1
+        if not eq(acc, sz):
+            return False
+        if keep is not None and keep in labels and len(labels) > 1:
+            return False
+    return i == len(want)
+
+
 def nest_str(nest):
     return ' > '.join(l for l, s in nest_clean(nest)) or '1'
 
@@ -752,6 +775,19 @@ class ShapeLifter(Lifter):
                     return out
             return TOP
         if f == 'range':
+            return TOP
+        if f in ('np.repeat', 'np.tile') and len(n.args) == 2 \
+                and not n.keywords:
+            # 1-D repeat: each element k times (src > k); tile: the whole
+            # sequence k times (k > src)
+            v = ev(n.args[0])
+            k = self.as_int(ev(n.args[1]))
+            if isinstance(v, Arr) and v.ndim == 1 and k is not None:
+                rep = ((label_of(k), k),)
+                nest = v.axes[0].nest + rep if f == 'np.repeat' \
+                    else rep + v.axes[0].nest
+                return Arr((Ax(v.axes[0].size * k, nest),),
+                           is_list=v.is_list)
             return TOP
         if isinstance(n.func, ast.Attribute) and n.func.attr == 'integers' \
                 and n.args:
